@@ -269,6 +269,8 @@ type LoopAnn struct {
 	N      int
 	Inv    []Clause
 	Decr   *Clause
+	Mod    []Clause // "loop k: modifies ..." (locations the body may change; checked per iteration)
+	HasMod bool
 }
 
 type Let struct {
@@ -581,6 +583,18 @@ func (cs *ContractSet) parseFile(path, pkg string) error {
 					}
 					la.Kind = "invariant"
 					la.Inv = append(la.Inv, c)
+				case "modifies":
+					la.HasMod = true
+					text := strings.TrimSpace(rest[len("modifies"):])
+					if text != "nothing" {
+						for _, part := range splitTop(text) {
+							c, err := mkClause(part, it.line)
+							if err != nil {
+								return err
+							}
+							la.Mod = append(la.Mod, c)
+						}
+					}
 				case "decreases":
 					c, err := mkClause(strings.TrimSpace(rest[len("decreases"):]), it.line)
 					if err != nil {
